@@ -444,7 +444,10 @@ def unit_catalogue(unit):
         extra += [("t.x = list", lambda sc: setattr(sc.x, "x", [5, 6, 7])), ("t.x__0 = list", lambda sc: setattr(sc.x, "x__0", [5, 6, 7])),
                   ("t.s__1 = vector", lambda sc: setattr(sc.x, "s__1", Vector([5, 6, 7]))), ("t.s = vector", lambda sc: setattr(sc.x, "s", Vector([5, 6, 7], name="s"))),
                   ("t.rename_column", lambda sc: sc.x.rename_column("s", "z")), ("t[:, 0] = list", lambda sc: sc.x.__setitem__((slice(None), 0), list(sc.x._underlying[0]._underlying))),
-                  ("t[0:3, 0:2] = t2", lambda sc: sc.x.__setitem__((slice(0, 3), slice(0, 2)), Table([Vector(list(c._underlying)) for c in sc.x._underlying])))]
+                  ("t[0:3, 0:2] = t2", lambda sc: sc.x.__setitem__((slice(0, 3), slice(0, 2)), Table([Vector(list(c._underlying)) for c in sc.x._underlying]))),
+                  ("t[:, 0] = scalar", lambda sc: sc.x.__setitem__((slice(None), 0), sc.x._underlying[0]._underlying[0] if len(sc.x) else 0)),
+                  ("t[:] = row", lambda sc: sc.x.__setitem__(slice(None), 0)),
+                  ("book[0, 0] = cell (table of tables)", lambda sc: Vector([sc.x, Table([Vector(list(c._underlying), name=c._name) for c in sc.x._underlying])]).__setitem__((0, 0), 0))]
     for label, fn, live in list(purity.all_derivations(kind, form, ykind)) + ([(l, f, False) for l, f in extra] if ykind is None else []):
         sc = purity.Scenario(kind, form, ykind)
         case = {"operand": kind, "form": form, "second_operand": ykind, "operation": label}
@@ -458,10 +461,11 @@ def unit_catalogue(unit):
             r, raised = None, "other"
         objs = list(sc.objects.values())
         if raised is not None and raised != "other":
-            # the operation itself was refused: is there a second live owner of x's storage?
+            # the operation itself was refused: do two live vectors really hold one and the same NON-EMPTY storage tuple?
+            # (every empty vector holds CPython's interned (): nothing can leak through it, it is never a reason to refuse)
             vs = live_vectors(objs)
-            tgt = sc.x if (purity.is_vec(sc.x) and not is_table(sc.x) and not purity.is_row(sc.x)) else None
-            if tgt is not None and not any(o is not tgt and o._underlying is tgt._underlying for o in vs):
+            really_shared = any(a is not b and len(a._underlying) and a._underlying is b._underlying for a in vs for b in vs)
+            if not really_shared:
                 agg.violation(V("catalogue." + form + "." + purity._site(label), "spurious-AliasError", case, "performed", "AliasError"))
             continue
         keep = r
@@ -530,6 +534,56 @@ def unit_catalogue(unit):
     return agg
 
 
+def unit_threads(unit):
+    """the same four-step history over one caller tuple (build a, write a, build b, write b - and the reverse roles) with every
+    assignment of the steps to two threads, run strictly one after the other (no concurrency): which thread performs a step is
+    not part of the statement, so every schedule must behave like the single-threaded one"""
+    import itertools, threading
+    from serif import Vector
+    from serif.alias_tracker import AliasError
+    agg = Agg()
+    for sched in itertools.product((0, 1), repeat=4):
+        for variant in ("write-a-first", "build-both-first"):
+            agg.evals += 1; agg.transitions += 4; agg.states += 1; agg.nontrivial += 1; agg.compared += 1
+            core.reset_globals("fresh")
+            box = {}
+            tup = (1, 2, 3)
+
+            def step(i):
+                try:
+                    if variant == "write-a-first":
+                        if i == 0: box["a"] = Vector(tup)
+                        elif i == 1: box["a"][0] = 9
+                        elif i == 2: box["b"] = Vector(tup)
+                        else: box["b"][0] = 8
+                    else:
+                        if i == 0: box["a"] = Vector(tup)
+                        elif i == 1: box["b"] = Vector(tup)
+                        elif i == 2: box["a"] = None          # the first sharer is dropped ...
+                        else: box["b"][0] = 8                 # ... so the survivor shares with nobody
+                    box[("ok", i)] = True
+                except AliasError:
+                    box[("refused", i)] = True
+                except Exception as e:
+                    box[("error", i)] = repr(e)[:60]
+            for i, th in enumerate(sched):
+                if th == 0:
+                    step(i)
+                else:
+                    t_ = threading.Thread(target=step, args=(i,))
+                    t_.start(); t_.join()
+            case = {"steps_run_in_thread": list(sched), "history": variant}
+            refused = [i for i in range(4) if box.get(("refused", i))]
+            errors = [box[("error", i)] for i in range(4) if ("error", i) in box]
+            # single-threaded truth: in 'write-a-first' a shares with nobody when written (b does not exist yet) and has left the tuple when b is written
+            if refused or errors:
+                agg.violation(V("threads", "spurious-AliasError-when-steps-run-in-different-threads" if refused else "raises", case, "all four steps performed", {"refused": refused, "errors": errors}))
+            else:
+                agg.outcomes["write-ok"] += 1
+    core.reset_globals("fresh")
+    return agg
+
+
 def check(ctx):
     agg = Agg()
     depth = ctx.pick(6, 7)
@@ -543,7 +597,7 @@ def check(ctx):
                           f"caller tuple, <= {dev} identity-reuse deviation(s)")
     from mc import purity
     cunits = [("cat", u[1], u[2], u[3]) for u in purity.plan(()) if u[1] not in ("acc", "acc?")]
-    for p in core.pmap(unit_catalogue, cunits):
+    for p in core.pmap(unit_catalogue, cunits) + core.pmap(unit_threads, [("threads",), ("threads-again",)]):
         agg.merge(p)
     agg.notes["deviation_bound"] = dev
     agg.sample({"events": ["tuple", "V_tup", "V_list", "copy", "T_dict", "t_setattr_list", "w_int", "drop", "collect", "...+alloc choices"]})
